@@ -25,6 +25,45 @@ TO_STRING_EXEMPT = {'Object': 'a parameter value `type(k=v, ...)`; the grammar d
 
 # ---- parentheses ---------------------------------------------------------------------------------------------
 
+def interpret_paren_action(ctx, g, p):
+    """the action of a `( x ) ...` production interpreted (sa/interp.py) on a production record whose inner symbol is a node without the parentheses mark
+    -> [(kind of the inner node, ok, what came back)] or None when the action is not interpretable (the dataflow rule decides then)"""
+    from ..interp import Interp, Obj, Raised, Env
+    inner = p.rhs[1]
+    kinds = ('BinaryOperation',) if inner == 'expr' else (('Select', 'Union') if inner in ('union', 'query') else ('Select',))
+    out = []
+    for kind in kinds:
+        node = Obj(kind, parentheses=False, alias=None, targets=[Obj('Identifier', parts=['c1'], alias=None), Obj('Identifier', parts=['c2'], alias=None)])
+        rec = {}
+        cnt = {s_: p.rhs.count(s_) for s_ in p.rhs}
+        seen = {}
+        for i, s_ in enumerate(p.rhs):
+            v = node if i == 1 else (['n1', 'n2'] if s_.endswith('_list') else (s_.lower() if s_.isupper() else 'name'))
+            rec[i] = v
+            rec[i - len(p.rhs)] = v
+            if cnt[s_] > 1:
+                rec[f'{s_}{seen.get(s_, 0)}'] = v
+                seen[s_] = seen.get(s_, 0) + 1
+            else:
+                rec[s_] = v
+        stubs = {'Identifier': lambda it, *a, **k: Obj('Identifier', parts=list(k.get('parts') or (a[0] if a else [])), alias=k.get('alias'))}
+        it = Interp.for_file(ctx.src, g.file, {'Select': {'ASTNode'}, 'Union': {'ASTNode'}, 'BinaryOperation': {'ASTNode', 'Operation'}, 'Identifier': {'ASTNode'}}, stubs)
+        try:
+            ret = it.call_function(p.func, [Obj('Parser'), rec], {}, Env())
+        except Raised as r:
+            # a refusal produces no tree, so no parentheses are lost; any other exception is a crash of the parser on accepted text
+            out.append((kind, r.exc_name == 'ParsingException', f'an exception {r.exc_name}'))
+            continue
+        except AnalysisError as e:
+            ctx.note(f'{g.dialect}: action of `{p}` is not interpretable ({str(e)[:80]}): decided by the dataflow rule')
+            return None
+        ok = ret is node and node.attrs.get('parentheses') is True
+        if isinstance(ret, Obj) and ret.kind == 'Tuple':
+            ok = True           # ( a ) read as a one-element tuple: the Tuple node prints its own parentheses
+        out.append((kind, ok, repr(ret)[:80] if ret is not node else f'the node with parentheses={node.attrs.get("parentheses")!r}'))
+    return out
+
+
 def check_parens(ctx, model):
     n = 0
     for d in DIALECTS:
@@ -40,6 +79,13 @@ def check_parens(ctx, model):
             fn = p.func
             pvar = fn.args.args[1].arg
             inner = p.rhs[1]
+            verdicts = interpret_paren_action(ctx, g, p)
+            if verdicts is not None:
+                for kind, ok, got in verdicts:
+                    ctx.ob('C01.paren-kept', f'{d}:{p}' + ('' if kind in ('Select', 'BinaryOperation') else f':{kind}'), ok,
+                           f'{d}: the action for `{p}` applied to a {kind} gives {got} - not that node with .parentheses = True: user-written parentheses are '
+                           f'lost on printing, so the re-parsed tree groups differently', file=g.file, line=fn.lineno, witness='select (a + b) * c')
+                continue
 
             def transfer(s, st):
                 st = set(st)
@@ -481,36 +527,10 @@ def check_leaves(ctx, model):
     r = g.lexer.rule('PARAMETER')
     ctx.need(r is not None, 'PARAMETER token not found')
     words, _ = language(r.pattern, g.lexer.reflags)
-    from .C04 import variable_encoder
+    from .C04 import node_printer
+    ppr = node_printer(ctx, pci)
     for w in words:
-        # evaluate Parameter.get_string with self.value = w
-        try:
-            env = {'self.value': w, 'str': str}
-            def ev(e):
-                if isinstance(e, ast.BinOp) and isinstance(e.op, ast.Add):
-                    return ev(e.left) + ev(e.right)
-                if isinstance(e, ast.Call) and dotted(e.func) == 'str':
-                    return str(ev(e.args[0]))
-                if isinstance(e, ast.IfExp):
-                    return ev(e.body) if ev(e.test) else ev(e.orelse)
-                return peval.ev(e, env)
-            def run(stmts):
-                for st in stmts:
-                    if isinstance(st, ast.If):
-                        x = run(st.body if ev(st.test) else st.orelse)
-                        if x is not None:
-                            return x
-                    elif isinstance(st, ast.Assign) and isinstance(st.targets[0], ast.Name):
-                        env[st.targets[0].id] = ev(st.value)
-                    elif isinstance(st, ast.Return):
-                        return (ev(st.value),)
-                    elif isinstance(st, ast.Expr) and isinstance(st.value, ast.Constant):
-                        pass
-                    else:
-                        raise AnalysisError(f'Parameter.get_string: unmodelled `{norm(st)}`')
-            out = run(gs.body)[0]
-        except TypeError:
-            raise AnalysisError('Parameter.get_string returns nothing')
+        out = ppr(value=w)          # Parameter.get_string interpreted with self.value = w
         ctx.ob('C01.leaf-lexes-back', f'Parameter:{w}', master.types(out) == ['PARAMETER'],
                f'a `{w}` placeholder is printed as `{out}`, which lexes to {master.types(out)} instead of one PARAMETER token',
                file=pci.file, line=gs.lineno, witness='select ?')
@@ -520,11 +540,7 @@ def check_leaves(ctx, model):
         fn = ci.methods.get('get_string')
         if fn is None:
             continue
-        rets = [x for x in walk_no_nested(fn) if isinstance(x, ast.Return)]
-        s = const_str(rets[0].value) if rets else None
-        if s is None:
-            ctx.note(f'{cls}.get_string is not a string literal - not checked')
-            continue
+        s = node_printer(ctx, ci)()
         ctx.ob('C01.leaf-lexes-back', cls, master.types(s) == [tok],
                f'{cls} prints `{s}`, which lexes to {master.types(s)} instead of [{tok}]', file=ci.file, line=fn.lineno)
     cci = model.get('Constant')
